@@ -249,36 +249,3 @@ def bounded_segment_is_valid(seed, tier):
             'bound': '%d segment nodes of %d shipped maps x %d seeded synthetic segments each (seed %d)' % (n_nodes, len(files), per_node, seed),
             'failures': failures}
 
-
-# ---- composite_if.is_valid (C15): real Composite data, component definitions by the element contract ------------------------
-import os as _os
-import contracts.segment as _CS
-set_scope('contracts.map_if')      # importing another contracts module switched the registration scope
-
-_KMAX = 3 if _os.environ.get('VERIF_TIER', 'quick') == 'thorough' else 2
-
-
-def comp_node_t(k):
-    return Obj('pyx12.map_if.composite_if', name=Str, refdes=Str, usage=Str, children=ListLit(*[ELEM_NODE for _ in range(k)]))
-
-
-COMP_CASES = [('%d components defined, data %s' % (k, 'None' if n is None else '%d components' % n),
-               {'self': comp_node_t(k), 'comp_data': (NoneT if n is None else _CS.composite_t(n))})
-              for k in range(1, _KMAX + 1) for n in [None] + list(range(1, _KMAX + 2))]
-
-contract('pyx12.map_if.composite_if.is_valid',
-         type_cases=COMP_CASES,
-         params={'errh': Obj('ext.ErrH', log=ListLit())},
-         returns=Bool,
-         requires=['comp_children_wf(self)', 'len(errh.log) == 0'],
-         ensures=['result == (len(errh.log) == 0)',
-                  "comp_own_code(self, comp_data) not in ('2', '5') or codes_of(errh.log) == [comp_own_code(self, comp_data)]",
-                  'comp_visits_children(self, comp_data) or comp_own_code(self, comp_data) != "" or len(errh.log) == 0',
-                  "comp_own_code(self, comp_data) != '3' or codes_of(errh.log)[0] == '3'",
-                  '(not comp_visits_children(self, comp_data)) or comp_any_control(self, comp_data) or '
-                  'reported(errh.log) == comp_child_flags(self, comp_data)'],
-         raises={},
-         opaque=['spec_type', 'has_control_char'],
-         serves=['C15', 'C07'],
-         note='components are validated through the CONTRACT of element_if.is_valid (its clause about control characters, the listed '
-              'known finding K4, is never assumed); the error sink is append-only (frames)')
